@@ -347,6 +347,8 @@ func fillStuff(pkt *[188]byte, pos *int, bodySize int, inSize int) {
 
 		len := *pos - base
 		copy(pkt[base+stuffSize:], pkt[base:base+len])
+		// the gap left behind is stuffing and must be 0xff, not the old header bytes.
+		copy(pkt[base:base+stuffSize], mpegtsStuff[:])
 		// increase the adaption field size.
 		pkt[4] += byte(stuffSize)
 
